@@ -41,22 +41,25 @@ Fixpoint split_dot (s : string) : string * option string :=
                   else let '(a, b) := split_dot r in (String c a, b)
   end.
 
-Fixpoint digits (s : string) (acc : nat) : option nat :=
+(* accumulates in N: an index like "99999999999999999999" must not be built in unary *)
+Fixpoint digits (s : string) (acc : N) : option N :=
   match s with
   | EmptyString => Some acc
   | String c r => let k := nat_of_ascii c in
-                  if (48 <=? k) && (k <=? 57) then digits r (10 * acc + (k - 48)) else None
+                  if (48 <=? k) && (k <=? 57) then digits r (10 * acc + N.of_nat (k - 48))%N else None
   end.
 (* strconv.Atoi: optional sign, at least one digit, decimal digits only.  Negative results are
-   returned as None here because every caller rejects them (reflect slice bounds). "-0" is 0. *)
-Definition atoi (s : string) : option nat :=
+   returned as None here because every caller rejects them (reflect slice bounds). "-0" is 0.
+   Values beyond the int range (strconv reports ErrRange) are far beyond any slice length, so the
+   callers reject them as well. *)
+Definition atoi (s : string) : option N :=
   match s with
   | EmptyString => None
   | String c r =>
       let k := nat_of_ascii c in
       if k =? 43 then match r with EmptyString => None | _ => digits r 0 end
       else if k =? 45 then match r with EmptyString => None | _ =>
-                 match digits r 0 with Some 0 => Some 0 | _ => None end end
+                 match digits r 0 with Some 0%N => Some 0%N | _ => None end end
       else digits s 0
   end.
 
@@ -270,7 +273,8 @@ Definition set_input (ps : list (string * port)) (input : string) (src : option 
       | None =>            (* strconv.Atoi(suffix); RemoveFromStructFieldArray *)
           do k <- atoi suffix;
           upd_port nm (fun p => match p with
-                                | Array l => if k <? length l then Some (Array (remove_at k l)) else None
+                                | Array l => if (k <? N.of_nat (length l))%N
+                                             then Some (Array (remove_at (N.to_nat k) l)) else None
                                 | Scalar _ => None end) ps
       | Some d =>          (* AddToStructFieldArray: appends, the suffix is not looked at *)
           upd_port nm (fun p => match p with Array l => Some (Array (l ++ [d])) | Scalar _ => None end) ps
